@@ -262,7 +262,12 @@ pub fn write_truncated_start(
         truncated_width += ellipsis_width;
         replay_truncated(recorded_ellipsis, truncated_start)?;
     }
-    let truncated_start = start + count_start_zero_width_chars_bytes(&data[start..]);
+    let truncated_start = if data_width > max_width {
+        start + count_start_zero_width_chars_bytes(&data[start..])
+    } else {
+        // Nothing was truncated, so leave the content as is.
+        start
+    };
     replay_truncated(recorded_content, truncated_start)?;
     Ok(truncated_width)
 }
